@@ -454,6 +454,22 @@ func (h *lockHist) gen() *blockOps {
 		}
 	}
 	thresholdChanged := map[common.Address]bool{}
+	if w.Weight > 0 && len(h.tokens) < 6 && h.ch.Height > 3 && roll(4) {
+		// the token contract lists a new token: a weight (0 is a legal listing weight) and, half of the time, a threshold in
+		// the same block; from now on the token takes part in locks, unlocks and later changes like the others
+		tok := common.BytesToAddress(world.Derive(h.c.Seed, "listed-token/"+h.cfg.Label, len(h.tokens))[:20])
+		wt := []uint64{0, 0, 1, 3}[h.r.Intn(4)]
+		o.Reqs.Locking.UpdateWeights = append(o.Reqs.Locking.UpdateWeights, &goattypes.UpdateTokenWeightRequest{Token: tok, Weight: wt})
+		o.Desc = append(o.Desc, fmt.Sprintf("list token %s weight=%d", denomOf(tok), wt))
+		if h.r.Intn(2) == 0 {
+			th := []*big.Int{big.NewInt(1), pow10(17), pow10(18)}[h.r.Intn(3)]
+			o.Reqs.Locking.UpdateThresholds = append(o.Reqs.Locking.UpdateThresholds, &goattypes.UpdateTokenThresholdRequest{Token: tok, Threshold: th})
+			o.Desc = append(o.Desc, fmt.Sprintf("threshold %s=%s", denomOf(tok), th))
+			thresholdChanged[tok] = true
+		}
+		h.tokens = append(append([]common.Address{}, h.tokens...), tok)
+		h.c.Count("tokens_listed_at_run_time", 1)
+	}
 	if roll(w.Threshold) {
 		tok := h.tokens[h.r.Intn(len(h.tokens))]
 		th := []*big.Int{big.NewInt(0), big.NewInt(1), pow10(18), new(big.Int).Mul(pow10(18), big.NewInt(5)), new(big.Int).Mul(pow10(18), big.NewInt(30))}[h.r.Intn(5)]
